@@ -16,7 +16,7 @@ from ..digest import Trace, digest
 PROP = 'C12'
 ENGINE = 'etsim+iosim'
 HASH_CLASSES = 3
-RUNS = {'quick': 900, 'thorough': 25000}
+RUNS = {'quick': 1800, 'thorough': 25000}
 RUN_TIMEOUT = 90
 DETERMINISM_RUNS = 10
 RULE = ("Each run = one simulated ET run (1-3 restarts with overlap, 1-2 "
